@@ -26,7 +26,7 @@ RULE = ('complete product of normalisation option sets x models x streams (forma
         'formatting x flag-subset product on its own); non-trivial = at least one normalisation option switched on')
 ASSUMPTIONS = [
     'the reference pipeline is the library itself (the property equates tool and library); the library is pinned by C01-C19',
-    '--check is excluded here (covered by C16); --quiet, -v and --encoding are not explored',
+    '--check is excluded here (covered by C16); --quiet and -v are not explored (--quiet is part of C16)',
     'graphs are separated by one or more newlines; the exact number of blank lines between graphs of different input files is not asserted',
     'random keys are scripted identically for the tool run and the reference run',
 ]
@@ -73,7 +73,7 @@ def shards(tier, seed):
     for m in MODELS:
         for fi in range(len(FORMATS)):
             out.append({'sub': 'formats', 'model': m, 'format': fi, 'bounds': 'every formatting option x every subset of the 5 flags x 4 models x all streams'})
-    out.append({'sub': 'channels', 'bounds': 'stdin / one file / two files / three files x 12 option sets x 2 models'})
+    out.append({'sub': 'channels', 'bounds': 'stdin / one file / two files / three files / two UTF-16 files with --encoding x 12 option sets x 2 models'})
     for part in range(6):
         out.append({'sub': 'subprocess', 'part': part, 'bounds': '36 fixed runs through a real python -m penman sub-process, compared with the in-process harness'})
     return out
@@ -102,7 +102,7 @@ def cases(shard):
         sets = _optsets()
         for m in ('none', 'amr'):
             for o in sets[::len(sets) // 12][:12]:
-                for ch in ('stdin', 'file1', 'file2', 'file3'):
+                for ch in ('stdin', 'file1', 'file2', 'file3', 'file2u16'):
                     yield {'model': m, 'opts': o, 'format': 0, 'stream': 1, 'channel': ch}
                     yield {'model': m, 'opts': o, 'format': 1, 'stream': 4, 'channel': ch}
     else:
@@ -245,11 +245,17 @@ def check(case, ctx):
             texts = [stream]
             stdin = stream
         else:
+            enc = 'utf-8'
+            if ch.endswith('u16'):
+                # input files in another encoding, announced with --encoding; a non-ASCII metadata line makes it matter
+                enc, ch = 'utf-16', ch[:-3]
+                argv += ['--encoding', 'utf-16']
+                stream = '# ::note \u00e9 \u3042\n' + stream
             n = int(ch[4:])
             texts = [stream, STREAMS[0], ''][:n] if n < 3 else [stream, '', STREAMS[2]]
             for i, tx in enumerate(texts):
                 p = os.path.join(d, f'in{i}.txt')
-                with open(p, 'w', encoding='utf-8') as fh:
+                with open(p, 'w', encoding=enc) as fh:
                     fh.write(tx)
                 argv.append(p)
         uses_random = 'random' in (opts['rearrange'] or '') or 'random' in (opts['reconfigure'] or '')
